@@ -1008,6 +1008,10 @@ func (env *SpecEnv) call(e *SExpr) Val {
 	case "select":
 		a := env.ev(args[0])
 		return VInt{T: Select(env.scalar(a, e), env.evalInt(args[1]))}
+	case "decBytes":
+		// the bytes of the decimal rendering of a uint64 (as produced by []byte(fmt.Sprintf("%d", n)))
+		n := env.evalInt(args[0])
+		return VInt{T: UF("bytes_of_str", SInt, UF("decstr", SInt, UF("box:uint64", SInt, n)))}
 	case "sumLen":
 		// sumLen(s, n): total length of the first n byte strings of s; evaluating it unfolds the
 		// recursive definition once (enough for running-sum loop invariants)
